@@ -74,7 +74,11 @@ func Drive(in io.Reader, w *bufio.Writer, opts Options) {
 		}
 		f := strings.Split(line, " ")
 		if f[0] == "pathenum" && len(f) == 2 {
-			n, _ := strconv.Atoi(f[1])
+			n, err := strconv.Atoi(f[1])
+			if err != nil || n < 0 {
+				w.WriteString("bad-op\n")
+				continue
+			}
 			for l := 0; l <= n; l++ {
 				pathEnum(w, l, nil)
 			}
